@@ -123,6 +123,8 @@ type runner struct {
 	xchecked      int
 	xdisagree     []string
 	itemUndis     map[[2]int]int
+	itemPaths     map[[2]int]int
+	maxItemPaths  int
 	itemViols     map[[2]int]int
 }
 
@@ -169,7 +171,7 @@ func runCheck(args []string) int {
 		return 2
 	}
 	r := &runner{P: P, chk: chk, tier: tier, seed: seed, matched: map[string]int{}, matchedSample: map[string]string{},
-		fnSeen: map[string]bool{}, ranges: map[string][2]int64{}, itemUndis: map[[2]int]int{}, itemViols: map[[2]int]int{}}
+		fnSeen: map[string]bool{}, ranges: map[string][2]int64{}, itemUndis: map[[2]int]int{}, itemViols: map[[2]int]int{}, itemPaths: map[[2]int]int{}}
 	r.cond = sync.NewCond(&r.mu)
 	r.workers, _ = strconv.Atoi(envOr("QSYM_WORKERS", "16"))
 	r.timeoutMs = 10000
@@ -300,6 +302,14 @@ func runCheck(args []string) int {
 	return 0
 }
 
+// pathCap bounds the number of paths explored per work item (an unwinding bound of the exploration).
+func (r *runner) pathCap() int {
+	if r.tier == "thorough" {
+		return 2000000
+	}
+	return 30000
+}
+
 func (r *runner) countStatus(s string) int {
 	n := 0
 	for _, v := range r.viols {
@@ -335,8 +345,8 @@ func (r *runner) worker() {
 				r.mu.Unlock()
 				break
 			}
-			t = r.queue[len(r.queue)-1]
-			r.queue = r.queue[:len(r.queue)-1]
+			t = r.queue[0] // work items in the order of the specification (basic shapes first)
+			r.queue = r.queue[1:]
 			r.mu.Unlock()
 		}
 		if time.Now().After(r.deadline) {
@@ -351,6 +361,19 @@ func (r *runner) worker() {
 		it := r.items[t.h][t.item]
 		r.mu.Lock()
 		giveUp := r.itemUndis[[2]int{t.h, t.item}] >= 12
+		r.itemPaths[[2]int{t.h, t.item}]++
+		if np := r.itemPaths[[2]int{t.h, t.item}]; np > r.maxItemPaths {
+			r.maxItemPaths = np
+		}
+		if !giveUp && r.itemPaths[[2]int{t.h, t.item}] > r.pathCap() {
+			// the code under test branches on symbolic data far more than the harness was sized for (e.g.
+			// a per-element comparison that is no longer a pure scalar function): the item is abandoned and
+			// listed as undischarged instead of eating the whole budget
+			giveUp = true
+			if r.itemPaths[[2]int{t.h, t.item}] == r.pathCap()+1 {
+				r.stats[t.h].Undis = append(r.stats[t.h].Undis, fmt.Sprintf("%s {%s}: path bound: more than %d paths in this work item", r.chk.Harnesses[t.h].Name, r.items[t.h][t.item], r.pathCap()))
+			}
+		}
 		if giveUp {
 			// too many inconclusive paths in this work item (unwinding bound / unsupported code): stop
 			// spending time on it; it stays listed as undischarged
@@ -824,8 +847,12 @@ func (r *runner) confirm(n *native) int {
 			v.Status = "not replayed (5 violations already confirmed)"
 			continue
 		}
-		if time.Since(tStart) > 3*time.Minute || n.runs-runs0 > 800 {
-			v.Status = "unconfirmed" // confirmation budget spent (3 min / 800 native runs)
+		maxRuns := 20000
+		if r.chk.Race {
+			maxRuns = 800 // a run under the race detector costs two orders of magnitude more
+		}
+		if time.Since(tStart) > 3*time.Minute || n.runs-runs0 > maxRuns {
+			v.Status = "unconfirmed" // confirmation budget spent (3 min / 20000 native runs; 800 under -race)
 			continue
 		}
 		h := r.chk.Harnesses[v.H]
@@ -1002,6 +1029,8 @@ func (r *runner) writeEvidence(wall float64, validated, mismatches, nviol int, b
 		"harnesses":                     perH,
 		"reach_labels":                  reach,
 		"axioms_instantiated":           r.axioms,
+		"max_paths_in_one_work_item":    r.maxItemPaths,
+		"path_bound_per_work_item":      r.pathCap(),
 		"solver_queries":                r.sstats.Queries,
 		"solver_sat":                    r.sstats.Sat,
 		"solver_unsat":                  r.sstats.Unsat,
